@@ -181,9 +181,15 @@ func (e *Engine) exploreFrame(init *State) []*State {
 				k, ip := key(o)
 				if k == bk && ip == bip && len(o.frames) == depth {
 					if m, ok := e.merge2(s, o); ok {
+						if e.Trace {
+							fmt.Printf("   merged s%d into s%d at block %d\n", o.id, s.id, s.frames[depth-1].block.Index)
+						}
 						s = m
 						e.Stats.Merges++
 						continue
+					}
+					if e.Trace {
+						fmt.Printf("   merge of s%d into s%d FAILED at block %d\n", o.id, s.id, s.frames[depth-1].block.Index)
 					}
 					e.Stats.MergeFails++
 				}
